@@ -17,7 +17,8 @@ Record pcase := {
   pc_success : bool;                    (* the last index build and delete-unused both reported success *)
   pc_panicked : bool;
   pc_faultfree : bool;
-  pc_lock_tries : nat; pc_lock_wins : nat; pc_force_ok : bool
+  pc_lock_tries : nat; pc_lock_wins : nat; pc_force_ok : bool;
+  pc_unforced_refused : bool             (* while the lock is held, an acquisition that is not forced is refused *)
 }.
 
 Definition subset (a b : list string) : bool := forallb (fun k => mem k b) a.
@@ -48,7 +49,7 @@ Definition spec13 (c : pcase) : bool :=
    exactly the old blobs they do not reference; one holder of the lock *)
 Definition refs (c : pcase) : list string := flat_map keys_of (scanned_files c).
 Definition spec14 (c : pcase) : bool :=
-  Nat.eqb (pc_lock_wins c) 1 && pc_force_ok c &&
+  Nat.eqb (pc_lock_wins c) 1 && pc_force_ok c && pc_unforced_refused c &&
   if pc_faultfree c && pc_success c then
     set_eq (pc_index c) (refs c) &&
     set_eq (pc_after c) (map fst (filter (fun b : string * bool => mem (fst b) (refs c) || snd b) (pc_before c)))
